@@ -7,6 +7,7 @@ import FrappyProofs.Lemmas.ActivateTables
 import FrappyProofs.Lemmas.ActivateMatch
 import FrappyProofs.Lemmas.ActivateLossExplicit
 import FrappyProofs.Lemmas.ActivateExported
+import FrappyProofs.Lemmas.ActivateDeadlock
 import FrappyModel.Generated.C08
 /-
 C08 — property theorems (nothing but property theorems and their non-vacuity examples).
@@ -111,7 +112,7 @@ theorem others_unaffected (cfg : Cfg) (σ σ' : State) (a : Act) : OthersUnaffec
   · rename_i c hc
     exact others_stepH cfg σ σ' c c' m p (by intro h; subst h; exact hne hc) hs
   · rename_i k hk
-    obtain ⟨_, _, _, _, f5, f6, _⟩ := stepU_frame cfg σ σ' k a.arg hs
+    obtain ⟨_, _, _, _, f5, f6, _⟩ := stepU_frame cfg σ σ' k a.arg (stepUG_some hs)
     simp [listens, f5, f6]
 
 /-- "The scopes of other connections are unaffected", on the tables themselves: an action changes no row of
@@ -124,7 +125,7 @@ theorem tables_others_unaffected (cfg : Cfg) (σ σ' : State) (a : Act) : Tables
 /-- The same for a whole broadcast, as equations: the tables after any action of an updater are the tables before. -/
 theorem broadcast_leaves_tables (cfg : Cfg) (σ σ' : State) (k : Nat) (arg : Conn)
     (h : step cfg σ ⟨.u k, arg⟩ = some σ') : σ'.active = σ.active ∧ σ'.subs = σ.subs := by
-  obtain ⟨_, _, _, _, f5, f6, _⟩ := stepU_frame cfg σ σ' k arg h
+  obtain ⟨_, _, _, _, f5, f6, _⟩ := stepU_frame cfg σ σ' k arg (stepUG_some h)
   exact ⟨f5, f6⟩
 
 /-- In every reachable state every table entry — a member of `_active_connections`, a member of `_subscriptions[k]` for
@@ -167,9 +168,9 @@ theorem only_exported_monitor_exact (cfg : Cfg) (tr : List Obs) :
 /-- The lock discipline of the repaired code (`_lock` → `updateLock` → `_subscription_lock`) cannot
 deadlock: in no reachable state with an unfinished thread is every thread blocked. -/
 theorem deadlock_free (cfg : Cfg) (hs : Conn → List Req) (us : Nat → List (Mod × Par × Entry))
-    (cache : Mod → Par → Entry) (σ : State) (h : Reach cfg (init hs us cache) σ)
-    (t : Tid) (ht : finished σ t = false) : ∃ a, (step cfg σ a).isSome = true :=
-  no_deadlock cfg σ (lockInv_reach cfg hs us cache σ h) t ht
+    (cache : Mod → Par → Entry) (hown : ∀ c, us (own c) = []) (σ : State) (h : Reach cfg (init hs us cache) σ)
+    (t : Tid) (ht : finished σ t = false) (hreal : ∀ c, t ≠ .u (own c)) : ∃ a, (step cfg σ a).isSome = true :=
+  no_deadlock cfg σ (lockInv_reach cfg hs us cache σ h) (ownInv_reach cfg hs us cache hown σ h) t ht hreal
 
 /-- Mutual exclusion, as used above: a lock is owned by exactly the thread whose program counter is
 inside the region the lock guards. -/
@@ -219,22 +220,22 @@ def mT2 : Mod := ⟨['T', '2'], by decide⟩
 def pTarget : Par := ['t', 'a', 'r', 'g', 'e', 't']
 def pTargetMax : Par := pTarget ++ ['_', 'm', 'a', 'x']
 
-def exCfg : Cfg := ⟨[mT, mT2], fun _ => [pTarget, pTargetMax], [1], fun _ => false, fun _ _ => false⟩
+def exCfg : Cfg := ⟨[mT, mT2], fun _ => [pTarget, pTargetMax], [1], fun _ => false, fun _ _ => 0, fun _ _ _ => .calls⟩
 def exInit : State :=
   init (fun c => if c = 1 then [.activate (.par mT pTarget), .deactivate (.par mT pTarget)] else [])
-       (fun k => if k = 1 then [(mT, pTarget, .val 7), (mT, pTarget, .val 5)] else []) (fun _ _ => .val 0)
+       (fun k => if k = 2 then [(mT, pTarget, .val 7 7), (mT, pTarget, .val 5 5)] else []) (fun _ _ => .val 0 0)
 
 /-- the updater stores 7 and has selected its listeners while the connection is active; the deactivation has
 to wait for the delivery -/
 def exActs : List Act :=
   [⟨.h 1, 0⟩, ⟨.h 1, 0⟩, ⟨.h 1, 0⟩, ⟨.h 1, 0⟩,       -- marker, disp, register, release sub
-   ⟨.u 1, 0⟩, ⟨.u 1, 0⟩,                              -- store 7, select listeners (holds sub)
-   ⟨.u 1, 1⟩, ⟨.u 1, 0⟩, ⟨.u 1, 0⟩,                   -- send to 1, release sub, release upd
+   ⟨.u 2, 0⟩, ⟨.u 2, 0⟩,                              -- store 7, select listeners (holds sub)
+   ⟨.u 2, 1⟩, ⟨.u 2, 0⟩, ⟨.u 2, 0⟩,                   -- send to 1, release sub, release upd
    ⟨.h 1, 0⟩, ⟨.h 1, 0⟩, ⟨.h 1, 0⟩, ⟨.h 1, 0⟩, ⟨.h 1, 0⟩, ⟨.h 1, 0⟩]  -- snapshot, release, reply
 
 example : ((run exCfg exInit exActs).map (fun σ => σ.trace)) =
-    some [.reqStart 1 (.activate (.par mT pTarget)), .emit 1 mT pTarget (.val 7), .deliver 1 mT pTarget (.val 7), .emitDone 1,
-          .deliver 1 mT pTarget (.val 7), .reply 1 (.activate (.par mT pTarget)) true] := by decide
+    some [.reqStart 1 (.activate (.par mT pTarget)), .emit 2 mT pTarget (.val 7 7), .deliver 1 mT pTarget (.val 7 7), .emitDone 2,
+          .deliver 1 mT pTarget (.val 7 7), .reply 1 (.activate (.par mT pTarget)) true] := by decide
 
 example : ∃ σ, Reach exCfg exInit σ ∧ σ.trace.length = 6 ∧ finished σ (.h 1) = false := by
   cases h : run exCfg exInit exActs with
@@ -255,33 +256,33 @@ connection 1 stays activated, the updater's value 7 was emitted after the `activ
 connection, and is the last message it holds -/
 def exInit2 : State :=
   init (fun c => if c = 1 then [.activate (.par mT pTarget)] else [])
-       (fun k => if k = 1 then [(mT, pTarget, .val 7)] else []) (fun _ _ => .val 0)
+       (fun k => if k = 2 then [(mT, pTarget, .val 7 7)] else []) (fun _ _ => .val 0 0)
 
 def exActs2 : List Act :=
-  (List.replicate 10 ⟨.h 1, 0⟩) ++ [⟨.u 1, 0⟩, ⟨.u 1, 0⟩, ⟨.u 1, 1⟩, ⟨.u 1, 0⟩, ⟨.u 1, 0⟩, ⟨.u 1, 0⟩, ⟨.h 1, 0⟩]
+  (List.replicate 10 ⟨.h 1, 0⟩) ++ [⟨.u 2, 0⟩, ⟨.u 2, 0⟩, ⟨.u 2, 1⟩, ⟨.u 2, 0⟩, ⟨.u 2, 0⟩, ⟨.u 2, 0⟩, ⟨.h 1, 0⟩]
 
 example : ((run exCfg exInit2 exActs2).map (fun σ =>
       (quietB σ.trace, coveredBy (firmAfter σ.trace 1) mT pTarget, lastDelivered σ.trace 1 mT pTarget, σ.cache mT pTarget,
-       finished σ (.h 1), finished σ (.u 1), σ.trace.length))) =
-    some (true, true, some (.val 7), .val 7, true, true, 6) := by rfl
+       finished σ (.h 1), finished σ (.u 2), σ.trace.length))) =
+    some (true, true, some (.val 7 7), .val 7 7, true, true, 6) := by rfl
 
 /-- `snapshot_complete_explicit` / `replies_match` are about something: the reachable trace of `exActs2` has an `active`
 reply at position 2 (marker at 0, the snapshot item at 1) and a broadcast delivery at position 4 -/
 example : ((run exCfg exInit2 exActs2).map (fun σ => (σ.trace[0]?, σ.trace[1]?, σ.trace[2]?, σ.trace[4]?,
-      matchMon.accepts σ.trace, (snapMon exCfg (fun _ _ => .val 0)).accepts σ.trace))) =
-    some (some (.reqStart 1 (.activate (.par mT pTarget))), some (.deliver 1 mT pTarget (.val 0)),
-          some (.reply 1 (.activate (.par mT pTarget)) true), some (.deliver 1 mT pTarget (.val 7)), true, true) := by rfl
+      matchMon.accepts σ.trace, (snapMon exCfg (fun _ _ => .val 0 0)).accepts σ.trace))) =
+    some (some (.reqStart 1 (.activate (.par mT pTarget))), some (.deliver 1 mT pTarget (.val 0 0)),
+          some (.reply 1 (.activate (.par mT pTarget)) true), some (.deliver 1 mT pTarget (.val 7 7)), true, true) := by rfl
 
 /-- `no_loss_explicit` is about something: in the same trace the store is at position 3, the return at 5, connection 1 is
 firmly covered at the store, and the delivery is at position 4 -/
 example : ((run exCfg exInit2 exActs2).map (fun σ => (σ.trace[3]?, σ.trace[4]?, σ.trace[5]?,
       coveredBy (firmAfter (σ.trace.take 3) 1) mT pTarget, (lossMon exCfg).accepts σ.trace))) =
-    some (some (.emit 1 mT pTarget (.val 7)), some (.deliver 1 mT pTarget (.val 7)), some (.emitDone 1), true, true) := by rfl
+    some (some (.emit 2 mT pTarget (.val 7 7)), some (.deliver 1 mT pTarget (.val 7 7)), some (.emitDone 2), true, true) := by rfl
 
 /-- the loss monitor is not trivially true: the same trace without the delivery is rejected -/
 example : (lossMon exCfg).accepts
-    [.reqStart 1 (.activate (.par mT pTarget)), .deliver 1 mT pTarget (.val 0), .reply 1 (.activate (.par mT pTarget)) true,
-     .emit 1 mT pTarget (.val 7), .emitDone 1] = false := by rfl
+    [.reqStart 1 (.activate (.par mT pTarget)), .deliver 1 mT pTarget (.val 0 0), .reply 1 (.activate (.par mT pTarget)) true,
+     .emit 2 mT pTarget (.val 7 7), .emitDone 2] = false := by rfl
 
 /-- the match monitor is not trivially true: a reply that answers another request than the open one is rejected -/
 example : matchMon.accepts [.reqStart 1 (.activate .all), .reply 1 (.deactivate .all) true] = false := by decide
@@ -290,50 +291,50 @@ example : matchMon.accepts [.reqStart 1 (.activate .all), .reply 1 (.deactivate 
 of `T:target_max` emitted afterwards still reaches it (the seeded `startswith(eventname)` mutant loses it) -/
 def exInit3 : State :=
   init (fun c => if c = 1 then [.activate (.par mT pTarget), .activate (.par mT pTargetMax), .deactivate (.par mT pTarget)] else [])
-       (fun k => if k = 1 then [(mT, pTargetMax, .val 3)] else []) (fun _ _ => .val 0)
+       (fun k => if k = 2 then [(mT, pTargetMax, .val 3 3)] else []) (fun _ _ => .val 0 0)
 
 example : ((run exCfg exInit3 ((List.replicate 26 (⟨.h 1, 0⟩ : Act)) ++
-      [⟨.u 1, 0⟩, ⟨.u 1, 0⟩, ⟨.u 1, 1⟩, ⟨.u 1, 0⟩, ⟨.u 1, 0⟩, ⟨.u 1, 0⟩, ⟨.h 1, 0⟩])).map (fun σ =>
+      [⟨.u 2, 0⟩, ⟨.u 2, 0⟩, ⟨.u 2, 1⟩, ⟨.u 2, 0⟩, ⟨.u 2, 0⟩, ⟨.u 2, 0⟩, ⟨.h 1, 0⟩])).map (fun σ =>
       (lastDelivered σ.trace 1 mT pTargetMax, listens σ 1 mT pTargetMax, listens σ 1 mT pTarget,
-       finished σ (.h 1), finished σ (.u 1)))) =
-    some (some (.val 3), true, false, true, true) := by rfl
+       finished σ (.h 1), finished σ (.u 2)))) =
+    some (some (.val 3 3), true, false, true, true) := by rfl
 
 /-- remote logging broken: `*IDN?` is answered with an error report, the activation is gone all the same and the update
 emitted afterwards is not delivered -/
-def exCfgBroken : Cfg := ⟨[mT], fun _ => [pTarget], [1], fun _ => true, fun _ _ => false⟩
+def exCfgBroken : Cfg := ⟨[mT], fun _ => [pTarget], [1], fun _ => true, fun _ _ => 0, fun _ _ _ => .calls⟩
 def exInit4 : State :=
   init (fun c => if c = 1 then [.activate .all, .ident] else [])
-       (fun k => if k = 1 then [(mT, pTarget, .val 3)] else []) (fun _ _ => .val 0)
+       (fun k => if k = 2 then [(mT, pTarget, .val 3 3)] else []) (fun _ _ => .val 0 0)
 
 example : ((run exCfgBroken exInit4 ((List.replicate 16 (⟨.h 1, 0⟩ : Act)) ++
-      [⟨.u 1, 0⟩, ⟨.u 1, 0⟩, ⟨.u 1, 0⟩, ⟨.u 1, 0⟩, ⟨.u 1, 0⟩, ⟨.h 1, 0⟩])).map (fun σ =>
-      (σ.trace.drop 3, listens σ 1 mT pTarget, finished σ (.h 1), finished σ (.u 1)))) =
-    some ([.reqStart 1 .ident, .reply 1 .ident false, .emit 1 mT pTarget (.val 3), .emitDone 1], false, true, true) := by rfl
+      [⟨.u 2, 0⟩, ⟨.u 2, 0⟩, ⟨.u 2, 0⟩, ⟨.u 2, 0⟩, ⟨.u 2, 0⟩, ⟨.h 1, 0⟩])).map (fun σ =>
+      (σ.trace.drop 3, listens σ 1 mT pTarget, finished σ (.h 1), finished σ (.u 2)))) =
+    some ([.reqStart 1 .ident, .reply 1 .ident false, .emit 2 mT pTarget (.val 3 3), .emitDone 2], false, true, true) := by rfl
 
 /-- two connections: 1 activates `T:target`, 2 activates the whole node, an update of `T:target` goes to both, 2 deactivates,
 the next update goes to 1 only — and between the two the broadcast has left no entry for 2 under `T:target`
 (what the seeded in-place `listeners |= …` does) -/
-def exCfg2 : Cfg := ⟨[mT], fun _ => [pTarget], [1, 2], fun _ => false, fun _ _ => false⟩
+def exCfg2 : Cfg := ⟨[mT], fun _ => [pTarget], [1, 2], fun _ => false, fun _ _ => 0, fun _ _ _ => .calls⟩
 def exInit5 : State :=
   init (fun c => if c = 1 then [.activate (.par mT pTarget)] else if c = 2 then [.activate .all, .deactivate .all] else [])
-       (fun k => if k = 1 then [(mT, pTarget, .val 1), (mT, pTarget, .val 5)] else []) (fun _ _ => .val 0)
+       (fun k => if k = 2 then [(mT, pTarget, .val 1 1), (mT, pTarget, .val 5 5)] else []) (fun _ _ => .val 0 0)
 
 def exActs5a : List Act :=
-  List.replicate 10 ⟨.h 1, 0⟩ ++ List.replicate 10 ⟨.h 2, 0⟩ ++ [⟨.u 1, 0⟩, ⟨.u 1, 0⟩, ⟨.u 1, 1⟩, ⟨.u 1, 2⟩, ⟨.u 1, 0⟩, ⟨.u 1, 0⟩]
+  List.replicate 10 ⟨.h 1, 0⟩ ++ List.replicate 10 ⟨.h 2, 0⟩ ++ [⟨.u 2, 0⟩, ⟨.u 2, 0⟩, ⟨.u 2, 1⟩, ⟨.u 2, 2⟩, ⟨.u 2, 0⟩, ⟨.u 2, 0⟩]
 def exActs5b : List Act :=
-  List.replicate 6 ⟨.h 2, 0⟩ ++ [⟨.u 1, 0⟩, ⟨.u 1, 0⟩, ⟨.u 1, 1⟩, ⟨.u 1, 0⟩, ⟨.u 1, 0⟩]
+  List.replicate 6 ⟨.h 2, 0⟩ ++ [⟨.u 2, 0⟩, ⟨.u 2, 0⟩, ⟨.u 2, 1⟩, ⟨.u 2, 0⟩, ⟨.u 2, 0⟩]
 
 /-- after the first broadcast (both connections were sent the value): the tables hold exactly the two own entries -/
 example : ((run exCfg2 exInit5 exActs5a).map (fun σ =>
       (σ.subs (pkey mT pTarget) 1, σ.subs (pkey mT pTarget) 2, σ.active 1, σ.active 2,
        lastDelivered σ.trace 1 mT pTarget, lastDelivered σ.trace 2 mT pTarget))) =
-    some (true, false, false, true, some (.val 1), some (.val 1)) := by rfl
+    some (true, false, false, true, some (.val 1 1), some (.val 1 1)) := by rfl
 
 /-- after the global `deactivate` of 2 and the second assignment: 1 holds 5, 2 still holds 1 -/
 example : ((run exCfg2 exInit5 (exActs5a ++ exActs5b)).map (fun σ =>
       (σ.subs (pkey mT pTarget) 1, σ.subs (pkey mT pTarget) 2, σ.active 2,
        lastDelivered σ.trace 1 mT pTarget, lastDelivered σ.trace 2 mT pTarget, σ.cache mT pTarget, quietB σ.trace))) =
-    some (true, false, false, some (.val 5), some (.val 1), .val 5, true) := by rfl
+    some (true, false, false, some (.val 5 5), some (.val 1 1), .val 5 5, true) := by rfl
 
 /-- `tables_own` is about something: a reachable state with entries in both tables -/
 example : ∃ σ, Reach exCfg2 exInit5 σ ∧ σ.active 2 = true ∧ σ.subs (pkey mT pTarget) 1 = true ∧
@@ -377,27 +378,27 @@ def mH : Mod := ⟨['H'], by decide⟩
 def pHidden : Par := ['#', 'h']
 def exInit6 : State :=
   init (fun c => if c = 1 then [.activate .all] else [])
-       (fun k => if k = 1 then [(mT, pHidden, .val 4), (mT, pTarget, .val 5), (mH, pTarget, .val 6)] else []) (fun _ _ => .val 0)
+       (fun k => if k = 2 then [(mT, pHidden, .val 4 4), (mT, pTarget, .val 5 5), (mH, pTarget, .val 6 6)] else []) (fun _ _ => .val 0 0)
 
-example : ((run exCfg2 exInit6 ((List.replicate 10 (⟨.h 1, 0⟩ : Act)) ++ [⟨.u 1, 0⟩, ⟨.u 1, 0⟩] ++
-      [⟨.u 1, 0⟩, ⟨.u 1, 0⟩, ⟨.u 1, 1⟩, ⟨.u 1, 0⟩, ⟨.u 1, 0⟩] ++ [⟨.u 1, 0⟩, ⟨.u 1, 0⟩, ⟨.u 1, 0⟩])).map (fun σ =>
-      (σ.trace.drop 3, finished σ (.u 1), σ.trace.all (exportedOk exCfg2)))) =
-    some ([.emit 1 mT pTarget (.val 5), .deliver 1 mT pTarget (.val 5), .emitDone 1], true, true) := by
+example : ((run exCfg2 exInit6 ((List.replicate 10 (⟨.h 1, 0⟩ : Act)) ++ [⟨.u 2, 0⟩, ⟨.u 2, 0⟩] ++
+      [⟨.u 2, 0⟩, ⟨.u 2, 0⟩, ⟨.u 2, 1⟩, ⟨.u 2, 0⟩, ⟨.u 2, 0⟩] ++ [⟨.u 2, 0⟩, ⟨.u 2, 0⟩, ⟨.u 2, 0⟩])).map (fun σ =>
+      (σ.trace.drop 3, finished σ (.u 2), σ.trace.all (exportedOk exCfg2)))) =
+    some ([.emit 2 mT pTarget (.val 5 5), .deliver 1 mT pTarget (.val 5 5), .emitDone 2], true, true) := by
   decide +kernel
 
 /-- … and the monitor rejects a delivery of the hidden parameter -/
-example : [Obs.reqStart 1 (.activate .all), .deliver 1 mT pHidden (.val 4)].all (exportedOk exCfg2) = false := by decide +kernel
+example : [Obs.reqStart 1 (.activate .all), .deliver 1 mT pHidden (.val 4 4)].all (exportedOk exCfg2) = false := by decide +kernel
 
 /-- the monitors are not trivially true: the pinned tree's log `update 7, inactive, update 5` is rejected … -/
 example : silentMon.accepts
-    [.reqStart 1 (.activate (.par mT pTarget)), .deliver 1 mT pTarget (.val 0), .reply 1 (.activate (.par mT pTarget)) true,
-     .deliver 1 mT pTarget (.val 7), .reqStart 1 (.deactivate (.par mT pTarget)), .reply 1 (.deactivate (.par mT pTarget)) true,
-     .deliver 1 mT pTarget (.val 5)] = false := by decide
+    [.reqStart 1 (.activate (.par mT pTarget)), .deliver 1 mT pTarget (.val 0 0), .reply 1 (.activate (.par mT pTarget)) true,
+     .deliver 1 mT pTarget (.val 7 7), .reqStart 1 (.deactivate (.par mT pTarget)), .reply 1 (.deactivate (.par mT pTarget)) true,
+     .deliver 1 mT pTarget (.val 5 5)] = false := by decide
 
 /-- … and the same log with the late update before the `inactive` reply is accepted -/
 example : silentMon.accepts
-    [.reqStart 1 (.activate (.par mT pTarget)), .deliver 1 mT pTarget (.val 0), .reply 1 (.activate (.par mT pTarget)) true,
-     .deliver 1 mT pTarget (.val 7), .reqStart 1 (.deactivate (.par mT pTarget)), .deliver 1 mT pTarget (.val 5),
+    [.reqStart 1 (.activate (.par mT pTarget)), .deliver 1 mT pTarget (.val 0 0), .reply 1 (.activate (.par mT pTarget)) true,
+     .deliver 1 mT pTarget (.val 7 7), .reqStart 1 (.deactivate (.par mT pTarget)), .deliver 1 mT pTarget (.val 5 5),
      .reply 1 (.deactivate (.par mT pTarget)) true] = true := by decide
 
 end Frappy.Props.C08
